@@ -177,5 +177,226 @@ theorem Set_Remove_eq (R : Rules α) (s : SetImpl α) (x : α) :
     · by_cases h2 : (List.eraseP (fun ev => R.equiv x ev) b).isEmpty = true <;> simp [h1, h2, mapDelete, mapSet]
     · simp [h1]
 
+/-! ### `Set.Length` -/
+
+theorem Set_Length_loop1_eq (c : Int) (l : List (Int × List α)) :
+    Set_Length_loop1 c l = .ok (c + Int.ofNat (l.map (fun kv => kv.2.length)).sum) := by
+  induction l generalizing c with
+  | nil => simp [Set_Length_loop1]
+  | cons p rest ih =>
+    obtain ⟨k, b⟩ := p
+    simp only [Set_Length_loop1, ih, len, List.map_cons, List.sum_cons]
+    congr 1
+    simp only [Int.ofNat_eq_natCast, Int.natCast_add]
+    omega
+
+theorem length_eq_sum (s : SetImpl α) : length s = (s.buckets.map (fun kv => kv.2.length)).sum := by
+  have : ∀ (l : List (Int × List α)) (c : Nat),
+      l.foldl (fun count kv => count + kv.2.length) c = c + (l.map (fun kv => kv.2.length)).sum := by
+    intro l
+    induction l with
+    | nil => simp
+    | cons p rest ih => intro c; simp [ih]; omega
+  simp [length, this]
+
+/-- `Length` does not depend on the order in which Go's `range` visits the buckets. -/
+theorem Set_Length_eq (ord : GoMap α → GoMap α) (ho : MapOrder ord) (R : Rules α) (s : SetImpl α) :
+    Set_Length ord s.buckets R = .ok (Int.ofNat (length s)) := by
+  simp only [Set_Length, Set_Length_loop1_eq, length_eq_sum]
+  rw [((ho s.buckets).map _).sum_nat]
+  simp
+
+/-! ### `Set.Copy` -/
+
+theorem sliceDone_map_some (v : List α) : sliceDone (v.map some) = .ok v := by
+  induction v with
+  | nil => rfl
+  | cons a t ih => simp [sliceDone, ih]
+
+theorem sliceCopy_fresh (v : List α) : sliceCopy (List.replicate v.length none) v = v.map some := by
+  simp [sliceCopy]
+
+theorem Set_Copy_loop1_eq (x : GoSet α) (acc : GoMap α) (l : List (Int × List α)) :
+    Set_Copy_loop1 x acc l = .ok ⟨l.foldl (fun acc kv => setBucket acc kv.1 kv.2) acc, x.rules⟩ := by
+  induction l generalizing acc with
+  | nil => simp [Set_Copy_loop1]
+  | cons p rest ih =>
+    obtain ⟨k, b⟩ := p
+    have h0 : ¬ ((b.length : Int) < 0) := by omega
+    have h1 : (b.length : Int).toNat = b.length := by omega
+    simp only [Set_Copy_loop1, sliceMakeN, len, Int.ofNat_eq_natCast, h0, h1, if_false, rbind_ok,
+      sliceCopy_fresh, sliceDone_map_some, ih, mapSet, List.foldl_cons]
+
+theorem asc_ext {a b : List (Int × List α)} (ha : Asc a) (hb : Asc b) (h : ∀ p, p ∈ a ↔ p ∈ b) : a = b := by
+  have na : a.Nodup := ha.imp (fun {x y} hxy e => by subst e; omega)
+  have nb : b.Nodup := hb.imp (fun {x y} hxy e => by subst e; omega)
+  have hp : a.Perm b := (List.perm_ext_iff_of_nodup na nb).mpr h
+  have ha' : a.Pairwise (fun x y => x.1 < y.1) := ha
+  have hb' : b.Pairwise (fun x y => x.1 < y.1) := hb
+  exact List.Perm.eq_of_pairwise (le := fun x y => x.1 < y.1) (fun x y _ _ h1 h2 => by omega) ha' hb' hp
+
+/-- assigning the entries of a map with distinct keys into a map that has none of those keys: the result is
+ascending and holds exactly the old and the new entries, whatever the order of assignment -/
+theorem foldl_setBucket_mem (l : List (Int × List α)) :
+    ∀ (acc : List (Int × List α)), Asc acc → l.Pairwise (fun a b => a.1 ≠ b.1) →
+      (∀ p ∈ l, ∀ q ∈ acc, p.1 ≠ q.1) →
+      Asc (l.foldl (fun acc kv => setBucket acc kv.1 kv.2) acc) ∧
+      ∀ p, p ∈ l.foldl (fun acc kv => setBucket acc kv.1 kv.2) acc ↔ p ∈ acc ∨ p ∈ l := by
+  induction l with
+  | nil => intro acc ha _ _; simp [ha]
+  | cons e rest ih =>
+    intro acc ha hd hdis
+    have ⟨he, hrest⟩ := List.pairwise_cons.mp hd
+    have ha' := asc_setBucket ha e.1 e.2
+    have hmem := mem_setBucket ha e.1 e.2
+    have := ih (setBucket acc e.1 e.2) ha' hrest (by
+      intro p hp q hq
+      rcases (hmem q).mp hq with rfl | ⟨hq, _⟩
+      · exact fun h => he p hp h.symm
+      · exact hdis p (List.mem_cons_of_mem _ hp) q hq)
+    refine ⟨this.1, fun p => ?_⟩
+    rw [List.foldl_cons, this.2 p, hmem p]
+    constructor
+    · rintro ((rfl | ⟨hp, _⟩) | hp)
+      · exact Or.inr (by simp)
+      · exact Or.inl hp
+      · exact Or.inr (List.mem_cons_of_mem _ hp)
+    · rintro (hp | hp)
+      · exact Or.inl (Or.inr ⟨hp, fun h => hdis e (by simp) p hp h.symm⟩)
+      · rcases List.mem_cons.mp hp with rfl | hp
+        · exact Or.inl (Or.inl rfl)
+        · exact Or.inr hp
+
+theorem asc_keys_ne {m : List (Int × List α)} (ha : Asc m) : m.Pairwise (fun a b => a.1 ≠ b.1) :=
+  ha.imp (fun {x y} hxy => by omega)
+
+theorem foldl_setBucket_perm {m l : List (Int × List α)} (ha : Asc m) (hp : l.Perm m) :
+    l.foldl (fun acc kv => setBucket acc kv.1 kv.2) [] = m := by
+  have hd : l.Pairwise (fun a b => a.1 ≠ b.1) :=
+    (List.Perm.pairwise_iff (fun {a b} h => Ne.symm h) hp.symm).mp (asc_keys_ne ha)
+  have := foldl_setBucket_mem l [] asc_nil hd (by simp)
+  exact asc_ext this.1 ha (fun p => by rw [this.2 p]; simp [hp.mem_iff])
+
+/-- `Copy` returns the model's copy whatever order Go's `range` visits the buckets in. -/
+theorem Set_Copy_eq (ord : GoMap α → GoMap α) (ho : MapOrder ord) (R : Rules α) (s : SetImpl α)
+    (ha : Asc s.buckets) : Set_Copy ord s.buckets R = .ok ⟨(copy s).buckets, R⟩ := by
+  simp only [Set_Copy, NewSet, rbind_ok, Set_Copy_loop1_eq, mapEmpty, foldl_setBucket_perm ha (ho s.buckets),
+    copy_eq ha]
+
+/-! ### `Set.Values`, `Set.Iterator` -/
+
+/-- the tail of `Values`: `sort.SliceStable` by `Less` iff the rules are `OrderedRules` -/
+def finish (R : Rules α) (l : List α) : List α :=
+  match R.less with
+  | none => l
+  | some less => sortStable less l
+
+theorem Set_Values_loop2_eq (m : GoMap α) (R : Rules α) (acc : List α) (ids : List Int) :
+    Set_Values_loop2 m R acc ids = .ok (finish R (acc ++ ids.flatMap (mapGet m))) := by
+  induction ids generalizing acc with
+  | nil =>
+    obtain hl | ⟨f, hl⟩ := Option.eq_none_or_eq_some R.less <;>
+      simp [Set_Values_loop2, finish, hl, sortSliceStable]
+  | cons k rest ih => simp [Set_Values_loop2, ih]
+
+theorem Set_Values_loop1_eq (m : GoMap α) (R : Rules α) (ids : List Int) (l : List (Int × List α)) :
+    Set_Values_loop1 m R ids l = Set_Values_loop2 m R [] (sortInts (ids ++ l.map Prod.fst)) := by
+  induction l generalizing ids with
+  | nil => simp [Set_Values_loop1]
+  | cons p rest ih =>
+    obtain ⟨k, b⟩ := p
+    simp [Set_Values_loop1, ih]
+
+/-- `sort.Ints` of the keys collected in any order is the ascending key list -/
+theorem sortInts_keys {m l : List (Int × List α)} (ha : Asc m) (hp : l.Perm m) :
+    sortInts (l.map Prod.fst) = m.map Prod.fst := by
+  have hk : (l.map Prod.fst).Perm (m.map Prod.fst) := hp.map _
+  have hs : (m.map Prod.fst).Pairwise (fun a b => a < b) := by
+    have : m.Pairwise (fun x y => x.1 < y.1) := ha
+    exact List.pairwise_map.mpr this
+  have hne : (l.map Prod.fst).Pairwise (fun a b => decide (a < b) = true ∨ decide (b < a) = true) := by
+    refine (List.Perm.pairwise_iff (fun {a b} h => h.symm) hk.symm).mp (hs.imp ?_)
+    intro a b h; simp; omega
+  have hst : StrictTotalOnList (fun a b : Int => decide (a < b)) (l.map Prod.fst) :=
+    ⟨fun a _ => by simp, fun a _ b _ c _ => by simp; omega, hne⟩
+  have h1 := sortStable_sorted _ _ hst
+  have h2 : (sortStable (fun a b : Int => decide (a < b)) (l.map Prod.fst)).Perm (m.map Prod.fst) :=
+    (sortStable_perm _ _).trans hk
+  refine List.Perm.eq_of_pairwise (le := fun a b : Int => a < b) (fun a b _ _ h1 h2 => by omega) ?_ hs h2
+  exact h1.imp (fun {a b} h => by simpa using h)
+
+theorem flatMap_mapGet {m : List (Int × List α)} (ha : Asc m) :
+    ∀ l : List (Int × List α), (∀ p ∈ l, p ∈ m) → (l.map Prod.fst).flatMap (mapGet m) = l.flatMap (fun kv => kv.2)
+  | [], _ => rfl
+  | (k, b) :: rest, h => by
+    have := flatMap_mapGet ha rest (fun p hp => h p (List.mem_cons_of_mem _ hp))
+    have hl : lookup m k = some b := lookup_of_mem ha (h (k, b) (by simp))
+    simp [mapGet, hl, this]
+
+/-- `Values()` is the model's iteration order whatever order Go's `range` visits the buckets in. -/
+theorem Set_Values_eq (ord : GoMap α → GoMap α) (ho : MapOrder ord) (R : Rules α) (s : SetImpl α)
+    (ha : Asc s.buckets) : Set_Values ord s.buckets R = .ok (iter R s) := by
+  have h0 : ¬ (mapLen s.buckets < 0) := by simp [mapLen]
+  simp only [Set_Values, sliceMake0, h0, if_false, rbind_ok, Set_Values_loop1_eq, List.nil_append,
+    sortInts_keys ha (ho s.buckets), Set_Values_loop2_eq, flatMap_mapGet ha s.buckets (fun _ h => h)]
+  obtain hl | ⟨f, hl⟩ := Option.eq_none_or_eq_some R.less <;> simp [finish, iter, hl, values, valuesSorted]
+
+theorem Set_Iterator_eq (ord : GoMap α → GoMap α) (ho : MapOrder ord) (R : Rules α) (s : SetImpl α)
+    (ha : Asc s.buckets) : Set_Iterator ord s.buckets R = .ok ⟨iter R s, -1⟩ := by
+  simp [Set_Iterator, Set_Values_eq ord ho R s ha]
+
+theorem Iterator_Value_eq (vals : List α) (i : Int) : Iterator_Value vals i = sliceGet vals i := by
+  simp only [Iterator_Value]
+  cases sliceGet vals i <;> rfl
+
+theorem Iterator_Next_eq (vals : List α) (i : Int) :
+    Iterator_Next vals i = .ok (i + 1, decide (i + 1 < len vals)) := rfl
+
+/-! ### `Set.EachValue` -/
+
+/-- calling a callback on every element of a list in turn, threading its state -/
+def foldRes {σ : Type} (cb : σ → α → Res σ) : σ → List α → Res σ
+  | st, [] => .ok st
+  | st, a :: l => (cb st a).bind fun st' => foldRes cb st' l
+
+theorem foldRes_ok {σ : Type} (cb : σ → α → Res σ) (f : σ → α → σ) (h : ∀ st a, cb st a = .ok (f st a)) :
+    ∀ (l : List α) (st : σ), foldRes cb st l = .ok (l.foldl f st)
+  | [], st => rfl
+  | a :: l, st => by simp [foldRes, h, foldRes_ok cb f h l]
+
+theorem sliceGet_length (pre : List α) (a : α) (l : List α) : sliceGet (pre ++ a :: l) (len pre) = .ok a := by
+  have h0 : ¬ ((pre.length : Int) < 0) := by omega
+  simp [sliceGet, len, h0]
+
+/-- the iterator loop visits the remaining elements in order and never runs out of fuel -/
+theorem Set_EachValue_loop1_eq {σ : Type} (cb : σ → α → Res σ) (i0 : Int) :
+    ∀ (l pre : List α) (fuel : Nat) (st : σ), l.length < fuel →
+      Set_EachValue_loop1 cb ⟨pre ++ l, i0⟩ fuel st (len pre - 1) = foldRes cb st l
+  | [], pre, fuel + 1, st, _ => by
+    simp [Set_EachValue_loop1, Iterator_Next_eq, foldRes, len]
+  | a :: l, pre, fuel + 1, st, h => by
+    have hlt : (pre.length : Int) < (pre.length : Int) + ((l.length : Int) + 1) := by omega
+    have ih := Set_EachValue_loop1_eq cb i0 l (pre ++ [a]) fuel
+    simp only [List.append_assoc, List.cons_append, List.nil_append, len, List.length_append, List.length_cons,
+      List.length_nil, Int.ofNat_eq_natCast, Int.natCast_add, Int.natCast_one, Int.natCast_zero, Int.zero_add,
+      Int.add_sub_cancel] at ih
+    simp only [Set_EachValue_loop1, Iterator_Next_eq, rbind_ok, Iterator_Value_eq, len, List.length_append,
+      List.length_cons, Int.ofNat_eq_natCast, Int.natCast_add, Int.natCast_one, Int.sub_add_cancel, hlt, decide_true,
+      if_true, foldRes]
+    have hg := sliceGet_length pre a l
+    simp only [len, Int.ofNat_eq_natCast] at hg
+    rw [hg, rbind_ok]
+    congr 1
+    funext st'
+    exact ih st' (by simp at h; omega)
+
+/-- `EachValue` calls the callback on the members in the model's iteration order -/
+theorem Set_EachValue_eq {σ : Type} (ord : GoMap α → GoMap α) (ho : MapOrder ord) (R : Rules α) (s : SetImpl α)
+    (ha : Asc s.buckets) (cb : σ → α → Res σ) (st : σ) :
+    Set_EachValue ord s.buckets R cb st = foldRes cb st (iter R s) := by
+  simp only [Set_EachValue, Set_Iterator_eq ord ho R s ha, rbind_ok]
+  have := Set_EachValue_loop1_eq cb (-1) (iter R s) [] (Int.toNat (len (iter R s) + 1)) st (by simp [len])
+  simpa [len] using this
+
 end SetFnsTie
 end CtyModel
